@@ -332,6 +332,9 @@ func runSchedule(sc Scenario, choices []int) result {
 	}
 	for _, c := range sc.Cancels {
 		c := c
+		if cancels[c] == nil {
+			panic("scenario cancels " + c + ", which is not one of its requesters")
+		}
 		sched.Env(&vt.EnvAction{Name: "cancel:" + c, Once: true, Do: func() {
 			cancelledNow[c] = true
 			lg.Add(vt.Ev{"ev": "cancel", "i": c})
